@@ -155,7 +155,7 @@ class FilesWorld:
             r = ro.random()
             if not inputs or r < 0.2:
                 enc = ro.choice(["utf-8"] * 4 + ["utf-8-sig", "utf-16", "latin-1", "cp1251"])
-                d = ro.choice(["in", "in", "in2", "rel-1.2"])      # a directory name with a dot in it
+                d = ro.choice(["in", "in", "in2", "in2", "rel-1.2", "v[1-2]"])      # directory names with a dot / with glob metacharacters
                 name = ro.choice(NAMES_SINGLE * 3 + NAMES_ODD)
                 text, it = self._text(rw, enc, clean_only=(d == "in2"))
                 if ro.random() < 0.06:
@@ -212,7 +212,7 @@ class FilesWorld:
                 elif rr < 0.9:
                     if swarm["faults"] and rf.random() < 0.5:
                         common["faults"] = faults + [{"site": "listdir", "perm_seed": rf.randrange(10 ** 6)}]
-                    op = dict(common, op="cli_dir", dir=ro.choice(["in2", "in2", "in"]), slash=ro.random() < 0.3)
+                    op = dict(common, op="cli_dir", dir=ro.choice(["in2", "in2", "in", "v[1-2]", "rel-1.2"]), slash=ro.random() < 0.3)
                 else:
                     op = dict(common, op="cli_missing", path=ro.choice(["nope.sql", "in/absent.ddl", "no/such/dir"]))
                 ops.append(op)
@@ -328,7 +328,7 @@ class FilesWorld:
         root = os.path.join(self.workroot, "c19-%d" % self.runs_done)
         self.runs_done += 1
         shutil.rmtree(root, ignore_errors=True)
-        for d in ("in", "in2", "cwd", "rel-1.2"):
+        for d in ("in", "in2", "cwd", "rel-1.2", "v[1-2]"):
             os.makedirs(os.path.join(root, d))
         os.chdir(os.path.join(root, "cwd"))
         stats = collections.Counter()
